@@ -208,6 +208,77 @@ case('c18-mirror-wrong-index', ['C18'], ['C18.sym'],
 case('c18-parent-not-dequeued', ['C18'], ['C18.bfs'],
      (PRM, "                    parent_map.insert(neighbor_idx, Some(current_idx));", "                    parent_map.insert(neighbor_idx, Some(neighbor_idx));"))
 
+# ---------------------------------------------------------------- C13
+case('c13-unweighted-distance', ['C13'], ['C13.depends'],
+     (CSS, "            total_dist_sq += (component_dist * self.weights[i]).powi(2);", "            total_dist_sq += (component_dist).powi(2);"))
+case('c13-loop-short', ['C13'], ['C13.index'],
+     (CSS, "        for i in 0..self.subspaces.len() {\n            self.subspaces[i].enforce_bounds_dyn(", "        for i in 0..self.subspaces.len().saturating_sub(1) {\n            self.subspaces[i].enforce_bounds_dyn("))
+case('c13-weights0', ['C13'], ['C13.index'],
+     (CSS, "            total_dist_sq += (component_dist * self.weights[i]).powi(2);", "            total_dist_sq += (component_dist * self.weights[0]).powi(2);"))
+case('c13-satisfies-early-true', ['C13'], ['C13.index'],
+     (CSS, "            if !self.subspaces[i].satisfies_bounds_dyn(&*state.components[i]) {\n                return false;\n            }", "            if self.subspaces[i].satisfies_bounds_dyn(&*state.components[i]) {\n                return true;\n            }"))
+case('c13-swapped-forwarders', ['C13'], ['C13.match'],
+     (ANY, "        self.enforce_bounds(state_s);", "        let _ = self.satisfies_bounds(state_s);"))
+case('c13-interpolate-args-swapped', ['C13'], ['C13.match'],
+     (ANY, "        self.interpolate(from_s, to_s, t, state_s);", "        self.interpolate(to_s, from_s, t, state_s);"))
+case('c13-se2-weights-swapped', ['C13'], ['C13.se'],
+     (SE2, "vec![1.0, weight]", "vec![weight, 1.0]"))
+case('c13-component-index-other-state', ['C13'], ['C13.index'],
+     (CSS, "                self.subspaces[i].distance_dyn(&*state1.components[i], &*state2.components[i]);", "                self.subspaces[i].distance_dyn(&*state1.components[i], &*state1.components[i]);"))
+
+# ---------------------------------------------------------------- C19
+PYRS = 'oxmpl-py/src/geometric/rrt_star.rs'
+PYPRM = 'oxmpl-py/src/geometric/prm.rs'
+PYSO2 = 'oxmpl-py/src/base/so2_state_space.rs'
+PYSO3 = 'oxmpl-py/src/base/so3_state_space.rs'
+PYPL = 'oxmpl-py/src/base/planner.rs'
+PYCONV = 'oxmpl-py/src/base/py_state_convert.rs'
+case('c19-args-swapped', ['C19'], ['C19.args'],
+     (PYRS, "RrtStarForSO2::new(max_distance, goal_bias, search_radius, &planner_config.0);", "RrtStarForSO2::new(goal_bias, max_distance, search_radius, &planner_config.0);"))
+case('c19-prm-args-swapped', ['C19'], ['C19.args'],
+     (PYPRM, "PrmForSE3::new(timeout, connection_radius, &planner_config.0);", "PrmForSE3::new(connection_radius, timeout, &planner_config.0);"))
+case('c19-arg-scaled', ['C19'], ['C19.args'],
+     (PYRS, "RrtStarForSE2::new(max_distance, goal_bias, search_radius, &planner_config.0);", "RrtStarForSE2::new(max_distance * 1.000001, goal_bias, search_radius, &planner_config.0);"))
+case('c19-solve-arm-missing', ['C19'], ['C19.dispatch'],
+     (PYRS, "            PlannerVariant::SE3(p) => {\n                let result = p.borrow_mut().solve(timeout);", "            PlannerVariant::SE3(p) => {\n                let _ = p;\n                let result: Result<oxmpl::base::planner::Path<SE3State>, oxmpl::base::error::PlanningError> =\n                    Err(oxmpl::base::error::PlanningError::Timeout);"))
+case('c19-ctor-unwrap', ['C19'], ['C19.errors'],
+     (PYSO2, "        match OxmplSO2StateSpace::new(bounds) {\n            Ok(space) => Ok(Self(Arc::new(Mutex::new(space)))),\n            Err(e) => Err(PyValueError::new_err(e.to_string())),\n        }",
+             "        let _ = PyValueError::new_err(\"unused\");\n        Ok(Self(Arc::new(Mutex::new(OxmplSO2StateSpace::new(bounds).unwrap()))))"))
+case('c19-seed-plus', ['C19'], ['C19.seed'],
+     (PYPL, "        let planner_config = OxmplPlannerConfig { seed };", "        let planner_config = OxmplPlannerConfig { seed: seed.map(|s| s + 1) };"))
+case('c19-convert-normalise', ['C19'], ['C19.lossless'],
+     (PYCONV, "        PySO2State(Arc::new(self.clone()))", "        PySO2State(Arc::new(OxmplSO2State::new(self.value)))"))
+
+# ---------------------------------------------------------------- C06
+case('c06-no-deadline', ['C06'], ['C06.loops'],
+     (RRT, "            if start_time.elapsed() > timeout {\n                self.rng = Some(rng);\n                return Err(PlanningError::Timeout);\n            }\n", "            let _ = (&start_time, &timeout);\n"))
+case('c06-clock-restarted', ['C06'], ['C06.deadline'],
+     (RRTS, "        loop {\n            // 1. Check for timeout\n            if start_time.elapsed() > timeout {", "        loop {\n            let start_time = Instant::now();\n            if start_time.elapsed() > timeout {"))
+case('c06-timeout-scaled', ['C06'], ['C06.deadline'],
+     (RRTC, "            if start_time.elapsed() > timeout {", "            if start_time.elapsed() > timeout * 2 {"))
+case('c06-retry-loop', ['C06'], ['C06.loops'],
+     (PRM, "            let q_rand = pd.space.sample_uniform(&mut *rng).unwrap();", "            let q_rand = loop {\n                if let Ok(s) = pd.space.sample_uniform(&mut *rng) {\n                    break s;\n                }\n            };"))
+case('c06-setter-zero', ['C06'], ['C06.divisor'],
+     (RV, "        } else if fraction > 1.0 || fraction.is_nan() {\n            self.longest_valid_segment_fraction = 1.;\n        }", "        } else if fraction > 1.0 || fraction.is_nan() {\n            self.longest_valid_segment_fraction = 1.;\n        } else {\n            self.longest_valid_segment_fraction = 0.;\n        }"))
+case('c06-bfs-exhausted-timeout', ['C06'], ['C06.errors'],
+     (PRM, "        let goal_node_idx = goal_reached.ok_or(PlanningError::NoSolutionFound)?;", "        let goal_node_idx = goal_reached.ok_or(PlanningError::PlannerUninitialised)?;"))
+case('c06-timeout-wrong-error', ['C06'], ['C06.deadline'],
+     (RRTS, "                self.rng = Some(rng);\n                return Err(PlanningError::Timeout);", "                self.rng = Some(rng);\n                return Err(PlanningError::NoSolutionFound);"))
+
+# ---------------------------------------------------------------- C08
+case('c08-gate-unwrap', ['C08'], ['C08.gates', 'C08.panics'],
+     (RRTS, "        let pd = self\n            .problem_def\n            .as_ref()\n            .ok_or(PlanningError::PlannerUninitialised)?;", "        let pd = self.problem_def.as_ref().unwrap();"))
+case('c08-unsampled-wrong-variant', ['C08'], ['C08.gates'],
+     (PRM, "            return Err(PlanningError::UnsampledStateSpace);", "            return Err(PlanningError::NoSolutionFound);"))
+case('c08-new-unwrap', ['C08'], ['C08.panics'],
+     (RRT, "            let q_near = &self.tree[nearest_node_index].state;", "            let _last = self.goal_bias.partial_cmp(&self.max_distance).unwrap();\n            let q_near = &self.tree[nearest_node_index].state;"))
+case('c08-checker-cleared', ['C08'], ['C08.init'],
+     (PRM, "        self.problem_def = Some(pd);\n    }", "        self.problem_def = Some(pd);\n        self.validity_checker = None;\n    }"))
+case('c08-index-before-check', ['C08'], ['C08.panics'],
+     (PRM, "        if start_connections.is_empty() || goal_indices.is_empty() {", "        let _first_goal = goal_indices[0];\n        if start_connections.is_empty() || goal_indices.is_empty() {"))
+case('c08-explicit-panic', ['C08'], ['C08.panics'],
+     (RRTC, "        let goal = &pd.goal;\n\n        // The start state is the root", "        let goal = &pd.goal;\n        assert!(self.max_distance > 0.0, \"max_distance must be positive\");\n\n        // The start state is the root"))
+
 # ---------------------------------------------------------------- benign refactors (must stay silent)
 case('benign-range-plus-one', ['C01', 'C03'], [],
      (RRT, "            for i in 1..=num_steps {", "            for i in 1..num_steps + 1 {"))
